@@ -706,4 +706,92 @@ theorem c20_mech_ignored_config_refused_by_file (d : MechDecl) (o : String × St
     exact Or.inr ⟨o, ho, by simp [hrow, hs]⟩
   simp [MechDecl.usableFromFile, this]
 
+/-! ## References to environment variables in the file (`${NAME}`; sixth round)
+
+The file may take the value of a property from a variable of any name. The reference is resolved in the TEXT of the
+file before YAML reads it, so the file with the reference is the file that says the contents literally at that place –
+quotes around the reference included. -/
+
+/-- Resolving references is textual: a reference `${NAME}` – wherever it stands, between quotes, inside a longer text –
+    is replaced by the contents of the variable, what stands before it (no `$`) is copied, the rest is resolved on. -/
+theorem c20_reference_is_textual (vs : Vars) (pre n post : List Char) (hp : noDollar pre = true)
+    (hn : nameOk n = true) :
+    substitute vs (pre ++ (plainRef n ++ post))
+      = (substitute vs post).map (fun s => pre ++ (vs.contents n ++ s)) :=
+  substitute_reference vs pre n post hp hn
+
+/-- hypotheses satisfiable, non-trivially: `p: "${PW}" # x` with `PW=0815` is `p: "0815" # x` -/
+example : substitute [(c!"PW", c!"0815")] (c!"p: \"" ++ (plainRef c!"PW" ++ c!"\" # x")) = some c!"p: \"0815\" # x" := by
+  decide
+
+/-- A file without references is read as it is. -/
+theorem c20_no_reference_unchanged (vs : Vars) (t : List Char) (h : noDollar t = true) :
+    loaderReadsRef vs t = loaderReads t ∧ validatorReadsRef vs t = validatorReads t := by
+  simp [loaderReadsRef, validatorReadsRef, readRefText, substitute_noDollar vs t h, loaderReads, validatorReads]
+
+/-- **A quoted reference is the string of the contents.** For every variable name and ALL contents that may stand
+    between double quotes (no `"`, no `\`, one line) – `0815`, `007`, `1e3`, `0x1f`, `true`, `null`, `~`, a date, the empty
+    text –: the file saying `"${NAME}"` is read, by the loader and by the validation, as the string of the contents;
+    exactly as the file that says `"contents"` literally and as the property's own variable carrying `"contents"`. -/
+theorem c20_quoted_reference_is_string (vs : Vars) (n : List Char) (hn : nameOk n = true)
+    (hv : dquoteSafe (vs.contents n) = true) :
+    loaderReadsRef vs (dquoted (plainRef n)) = some (.str (vs.contents n))
+    ∧ validatorReadsRef vs (dquoted (plainRef n)) = some (.str (vs.contents n))
+    ∧ loaderReads (dquoted (vs.contents n)) = some (.str (vs.contents n))
+    ∧ envReads (dquoted (vs.contents n)) = some (.str (vs.contents n)) := by
+  have hs : substitute vs (dquoted (plainRef n)) = some (dquoted (vs.contents n)) := by
+    have := substitute_reference vs ['"'] n ['"'] (by decide) hn
+    have h2 : substitute vs ['"'] = some ['"'] := substitute_noDollar vs _ (by decide)
+    simpa [dquoted, h2] using this
+  have hr := readText_dquoted _ hv
+  simp [loaderReadsRef, validatorReadsRef, readRefText, hs, hr, loaderReads, envReads]
+
+/-- the same between single quotes -/
+theorem c20_single_quoted_reference_is_string (vs : Vars) (n : List Char) (hn : nameOk n = true)
+    (hv : squoteSafe (vs.contents n) = true) :
+    loaderReadsRef vs (squoted (plainRef n)) = some (.str (vs.contents n))
+    ∧ validatorReadsRef vs (squoted (plainRef n)) = some (.str (vs.contents n))
+    ∧ envReads (squoted (vs.contents n)) = some (.str (vs.contents n)) := by
+  have hs : substitute vs (squoted (plainRef n)) = some (squoted (vs.contents n)) := by
+    have := substitute_reference vs ['\''] n ['\''] (by decide) hn
+    have h2 : substitute vs ['\''] = some ['\''] := substitute_noDollar vs _ (by decide)
+    simpa [squoted, h2] using this
+  have hr := readText_squoted _ hv
+  simp [loaderReadsRef, validatorReadsRef, readRefText, hs, hr, envReads]
+
+set_option exponentiation.threshold 2048 in
+/-- the hypotheses are satisfiable, and the quotes matter: with `PW=0815` the quoted reference is the string `0815`
+    (the seed's demonstration: a key store password), the plain reference is a number; with `PW=null` the quoted one is
+    the string `null`, the plain one nil -/
+example :
+    let vs : Vars := [(c!"PW", c!"0815"), (c!"N", c!"null")]
+    nameOk c!"PW" = true ∧ dquoteSafe (vs.contents c!"PW") = true
+    ∧ loaderReadsRef vs c!"\"${PW}\"" = some (.str c!"0815")
+    ∧ loaderReadsRef vs c!"${PW}" = some (.float c!"815")
+    ∧ loaderReadsRef vs c!"'${N}'" = some (.str c!"null")
+    ∧ loaderReadsRef vs c!"${N}" = some .null
+    ∧ loaderReadsRef vs c!"${UNSET:=4460}" = some (.int 4460) := by decide
+
+/-- Hence for every leaf type: a string property given as `"${NAME}"` in the file passes the validation and yields the
+    same leaf as the literal `"contents"` in the file and as the property's own variable carrying `"contents"` – usable
+    from the file iff usable from the environment, with identical effect. -/
+theorem c20_quoted_reference_same_as_literal_and_env (lt : LeafType) (vs : Vars) (n : List Char)
+    (hn : nameOk n = true) (hv : dquoteSafe (vs.contents n) = true) :
+    fileOutcomeRef lt .string vs (dquoted (plainRef n)) = some (.leaf (decode lt (.str (vs.contents n))))
+    ∧ fileOutcomeOf lt .string (dquoted (vs.contents n)) = some (.leaf (decode lt (.str (vs.contents n))))
+    ∧ envOutcomeOf lt (dquoted (vs.contents n)) = some (.leaf (decode lt (.str (vs.contents n)))) := by
+  obtain ⟨h1, h2, h3, h4⟩ := c20_quoted_reference_is_string vs n hn hv
+  have h5 : validatorReads (dquoted (vs.contents n)) = some (.str (vs.contents n)) := h3
+  simp [fileOutcomeRef, fileOutcomeOf, envOutcomeOf, h1, h2, h3, h4, h5, fileOutcome, envOutcome, schemaAccepts]
+
+/-- A plain reference (`port: ${PORT}`) is read exactly as the property's own variable carrying the contents is read:
+    YAML decides what the contents are (a number, a boolean, nil, a string). -/
+theorem c20_plain_reference_reads_as_variable (vs : Vars) (n : List Char) (hn : nameOk n = true) :
+    loaderReadsRef vs (plainRef n) = envReads (vs.contents n)
+    ∧ validatorReadsRef vs (plainRef n) = envReads (vs.contents n) := by
+  have := substitute_reference vs [] n [] (by decide) hn
+  have hs : substitute vs (plainRef n) = some (vs.contents n) := by
+    simpa [substitute, substGo] using this
+  simp [loaderReadsRef, validatorReadsRef, readRefText, hs, envReads]
+
 end Heimdall.Props.C20
